@@ -484,8 +484,23 @@ func ToQuantity(ctx *expr.Context, input system.Collection, args ...expr.Express
 			return system.Collection{result}, nil
 		}
 		res := strings.SplitN(string(value), " ", 2)
+		if len(res) < 2 {
+			// No space between number and unit ("5", "5'mg'"): take the parts
+			// from the match; a bare number has the default unit.
+			unit := matches[regex.SubexpIndex("unit")]
+			if unit == "" {
+				unit = matches[regex.SubexpIndex("time")]
+			}
+			if unit == "" {
+				unit = DefaultQuantityUnit
+			}
+			res = []string{matches[regex.SubexpIndex("value")], unit}
+		}
 		unit := strings.Trim(res[1], "'")
-		result := system.MustParseQuantity(res[0], unit)
+		result, err := system.ParseQuantity(res[0], unit)
+		if err != nil {
+			return system.Collection{}, nil
+		}
 		return system.Collection{result}, nil
 	case system.Boolean:
 		if value {
